@@ -79,6 +79,9 @@ def check_qs_run(ctx, unit):
                 return ["post"]
             if n.kind == "DeclStmt" and any(d["d"] == node_did for d in n.get("decls", [])):
                 return ["pre"]
+            if n.kind == "BinaryOperator" and n.op == "=" and std_unwrap(n.children[0]).kind == "DeclRefExpr" \
+                    and std_unwrap(n.children[0]).d.get("d") == node_did:
+                return ["pre"]          # the node variable is given the next node (`for(node = next(); node; node = next())`)
             if s == "post":
                 if n.kind == "MemberExpr":
                     p = path(n)
@@ -108,7 +111,44 @@ def check_qs_run(ctx, unit):
         ctx.inst("Q.once", AGENT + "::run", ok_unl and ok_rst, cb.loc,
                  "unlink dominates callback: %s; target reset dominates callback: %s" % (ok_unl, ok_rst), f)
         # ripe only
-        facts = flow.facts_at(f, cb.id)
+        facts = list(flow.facts_at(f, cb.id))
+        # the node may be handed out by a folded helper (`node = _next_due(ctr)`, null when nothing is due): the callback runs
+        # under `node != null`, so what holds where the helper returns a non-null node holds at the callback -- provided
+        # EVERY definition of the node variable is such a call and every non-null return of it carries the decision
+        helper_defs = []
+        for n_ in f.all_nodes():
+            rhs_ = None
+            if n_.kind == "DeclStmt":
+                for d_ in n_.get("decls", []):
+                    if d_["d"] == node_did and "init" in d_:
+                        rhs_ = f.node(d_["init"])
+            elif n_.kind == "BinaryOperator" and n_.op == "=" and std_unwrap(n_.children[0]).kind == "DeclRefExpr" \
+                    and std_unwrap(n_.children[0]).d.get("d") == node_did:
+                rhs_ = n_.children[1]
+            if rhs_ is not None:
+                helper_defs.append(rhs_)
+        extra_sets = []
+        nonnull_guard = any(std_unwrap(c_).kind == "DeclRefExpr" and std_unwrap(c_).d.get("d") == node_did and t_ for c_, t_ in facts)
+        front_in_helper = False
+        if helper_defs and nonnull_guard and all(std_unwrap(h_).d.get("inlined") and isinstance(std_unwrap(h_).d.get("rets"), list) for h_ in helper_defs):
+            for h_ in helper_defs:
+                hc = std_unwrap(h_)
+                for r_ in hc.d["rets"]:
+                    rv_ = f.node(r_)
+                    if rv_.strip().get("nullc") or rv_.strip().kind == "CXXNullPtrLiteralExpr":
+                        continue
+                    anc_ = [m_ for m_ in f.all_nodes() if m_.kind == "InlinedReturn" and m_.d.get("val") == r_]
+                    if anc_:
+                        extra_sets.append(list(flow.facts_at(f, anc_[0].id)))
+                    src_ = RA.resolve_local(f, rv_, RA.local_inits(f))
+                    if std_unwrap(src_).is_call() and std_unwrap(src_).callee and std_unwrap(src_).callee["n"] == "front":
+                        front_in_helper = True
+        if extra_sets:
+            # a decision counts when it holds at every non-null return
+            import re as _re
+            sid = lambda x: _re.sub(r"#\d+", "", canon(x))       # (each folded copy of the helper has its own locals)
+            common = [ft for ft in extra_sets[0] if all(any(sid(ft[0]) == sid(g_[0]) and ft[1] == g_[1] for g_ in es_) for es_ in extra_sets[1:])]
+            facts += common
         acc = RA.accesses(f)
         inits = RA.local_inits(f)
         ripe = False
@@ -141,7 +181,7 @@ def check_qs_run(ctx, unit):
             elif not is_target(b):
                 continue
             holds_ge = (op == "<" and t is False) or (op == ">=" and t is True)
-            src = RA.resolve_local(f, a, inits)
+            src = RA.resolve_local(f, std_unwrap(a), inits)       # (through the bound parameter of a folded helper)
             ld = [x for x in acc if x.node.id == src.id and x.op == "load" and x.obj and x.obj[-1] == "_qs_counter"]
             if holds_ge and ld:
                 if ld[0].order in RA.ACQ:
@@ -154,6 +194,7 @@ def check_qs_run(ctx, unit):
         fr = [n for n in f.events() if n.is_call() and n.callee and n.callee["n"] == "front"]
         fifo = any(d.get("init") is not None and f.node(d["init"]).strip().id in [x.id for x in fr]
                    for n in f.all_nodes() if n.kind == "DeclStmt" for d in n.get("decls", []) if d["d"] == node_did)
+        fifo = fifo or front_in_helper
         ctx.inst("Q.ripe-only", AGENT + "::run", ripe and fifo, cb.loc, why + "; node taken from front(): %s" % fifo, f)
     for f in _one(unit, AGENT + "::await_barrier"):
         pb = [n for n in f.events() if n.is_call() and n.callee and n.callee["n"] == "push_back"]
@@ -272,9 +313,15 @@ def check_qs_chain(ctx, unit):
                 users = {a.node.id}
                 for did, init in inits.items():
                     if init.strip().id == a.node.id and not RA._reassigned(f, did):
+                        bm_ = f.bind_map()
                         for x in f.all_nodes():
                             if x.kind == "DeclRefExpr" and x.d["d"] == did:
                                 users.add(x.id)
+                            elif x.kind == "DeclRefExpr" and x.d["d"] in bm_:
+                                # handed to a folded helper by value: the helper's parameter is the same value
+                                y = std_unwrap(x)
+                                if y.kind == "DeclRefExpr" and y.d.get("d") == did:
+                                    users.add(x.id)
                 for c in cond_nodes.values():
                     if in_assert(c):
                         continue
